@@ -190,7 +190,7 @@ func runCmpLevels(c *Ctx, r *RuleRun) {
 			r.Undecided(fn, "table sets", p.Pos(f.Pos()), "fewer than two input table sets recognised")
 			continue
 		}
-		setOf := func(v ssa.Value) *tableSet {
+		setOfDirect := func(v ssa.Value) *tableSet {
 			for i := range sets {
 				s := &sets[i]
 				if derivesFrom(v, func(x ssa.Value) bool { return x == s.val }) {
@@ -199,72 +199,121 @@ func runCmpLevels(c *Ctx, r *RuleRun) {
 			}
 			return nil
 		}
+		// a frame per helper call: values of the helper are traced back through its parameters to the compactor
+		type frame struct {
+			fn   *ssa.Function
+			site *ssa.Call
+			up   *frame
+		}
+		var setOfIn func(v ssa.Value, fr *frame) *tableSet
+		setOfIn = func(v ssa.Value, fr *frame) *tableSet {
+			if fr == nil || fr.site == nil {
+				return setOfDirect(v)
+			}
+			var res *tableSet
+			derivesFrom(v, func(x ssa.Value) bool {
+				pr, ok := x.(*ssa.Parameter)
+				if !ok || pr.Parent() != fr.fn {
+					return false
+				}
+				for i, q := range fr.fn.Params {
+					if q == pr && i < len(fr.site.Call.Args) {
+						res = setOfIn(fr.site.Call.Args[i], fr.up)
+					}
+				}
+				return res != nil
+			})
+			return res
+		}
+		var levelIn func(v ssa.Value, fr *frame) string
+		levelIn = func(v ssa.Value, fr *frame) string {
+			if fr != nil && fr.site != nil {
+				if pr, ok := stripValue(v).(*ssa.Parameter); ok && pr.Parent() == fr.fn {
+					for i, q := range fr.fn.Params {
+						if q == pr && i < len(fr.site.Call.Args) {
+							return levelIn(fr.site.Call.Args[i], fr.up)
+						}
+					}
+				}
+			}
+			return o.nf(v)
+		}
 		// uses of a set with a level
 		var outLevels []struct {
 			nf   string
 			what string
 			pos  token.Pos
 		}
-		eachInstr(f, func(ins ssa.Instruction) {
-			cl, ok := ins.(*ssa.Call)
-			if !ok {
-				return
-			}
-			g := cl.Call.StaticCallee()
-			obj := p.CalleeObj(cl)
-			switch {
-			case g == fetch:
-				if s := setOf(cl.Call.Args[2]); s != nil {
-					r.Check(o.nf(cl.Call.Args[1]) == s.level, fn, "fetch from the level of the set", p.Pos(instrPos(cl)), "tables selected from level "+s.level+" are read from level "+s.level,
-						"a table selected by "+s.what+" (level "+s.level+") is fetched with level "+o.nf(cl.Call.Args[1])+": another table's file (or none) is read")
+		var visit func(h *ssa.Function, fr *frame, depth int)
+		visit = func(h *ssa.Function, fr *frame, depth int) {
+			eachInstr(h, func(ins ssa.Instruction) {
+				cl, ok := ins.(*ssa.Call)
+				if !ok {
+					return
 				}
-			case g != nil && p.InModule(g) && g.Name() == "fileName" || (g != nil && p.InModule(g) && g.Signature.Results().Len() == 1 && isStringType(g.Signature.Results().At(0).Type()) && g.Signature.Params().Len() == 2 && p.recvIs(g, "levelManager")):
-				if s := setOf(cl.Call.Args[2]); s != nil {
-					r.Check(o.nf(cl.Call.Args[1]) == s.level, fn, "file removed at the level of the set", p.Pos(instrPos(cl)), "file names of tables from level "+s.level+" are built with level "+s.level,
-						"the file of a table selected by "+s.what+" (level "+s.level+") is named with level "+o.nf(cl.Call.Args[1])+": another table's file is deleted and this one stays")
-				}
-			case obj != nil && funcIs(obj, "container/list", "List", "Remove"):
-				if s := setOf(cl.Call.Args[1]); s != nil {
-					lv := ""
+				g := cl.Call.StaticCallee()
+				obj := p.CalleeObj(cl)
+				setOf := func(v ssa.Value) *tableSet { return setOfIn(v, fr) }
+				lvl := func(v ssa.Value) string { return levelIn(v, fr) }
+				switch {
+				case g == fetch:
+					if s := setOf(cl.Call.Args[2]); s != nil {
+						r.Check(lvl(cl.Call.Args[1]) == s.level, fn, "fetch from the level of the set", p.Pos(instrPos(cl)), "tables selected from level "+s.level+" are read from level "+s.level,
+							"a table selected by "+s.what+" (level "+s.level+") is fetched with level "+lvl(cl.Call.Args[1])+": another table's file (or none) is read")
+					}
+				case g != nil && p.InModule(g) && g.Name() == "fileName" || (g != nil && p.InModule(g) && g.Signature.Results().Len() == 1 && isStringType(g.Signature.Results().At(0).Type()) && g.Signature.Params().Len() == 2 && p.recvIs(g, "levelManager")):
+					if s := setOf(cl.Call.Args[2]); s != nil {
+						r.Check(lvl(cl.Call.Args[1]) == s.level, fn, "file removed at the level of the set", p.Pos(instrPos(cl)), "file names of tables from level "+s.level+" are built with level "+s.level,
+							"the file of a table selected by "+s.what+" (level "+s.level+") is named with level "+lvl(cl.Call.Args[1])+": another table's file is deleted and this one stays")
+					}
+				case obj != nil && funcIs(obj, "container/list", "List", "Remove"):
+					if s := setOf(cl.Call.Args[1]); s != nil {
+						lv := ""
+						if u, ok := cl.Call.Args[0].(*ssa.UnOp); ok {
+							if ia, ok := u.X.(*ssa.IndexAddr); ok && isLoadOfField(ia.X, levels) {
+								lv = lvl(ia.Index)
+							}
+						}
+						r.Check(lv == s.level, fn, "unlinked from the level of the set", p.Pos(instrPos(cl)), "elements of level "+s.level+" are removed from the list of level "+s.level,
+							"an element selected by "+s.what+" (level "+s.level+") is removed from the list of level "+lv+": container/list ignores the call and the table stays linked while its file is deleted")
+					}
+				case fr != nil && fr.site != nil:
+					// inside a helper only the uses of table sets matter
+				case g != nil && p.InModule(g) && g.Pkg == f.Pkg && depth < 2 && !isElemSlice(cl.Type()) && g != build && passesSet(cl, func(v ssa.Value) bool { return setOf(v) != nil }):
+					visit(g, &frame{g, cl, fr}, depth+1)
+				case g == build:
+					outLevels = append(outLevels, struct {
+						nf   string
+						what string
+						pos  token.Pos
+					}{o.nf(cl.Call.Args[len(cl.Call.Args)-1]), "table.Build", instrPos(cl)})
+				case obj != nil && funcIs(obj, "container/list", "List", "PushBack"), obj != nil && funcIs(obj, "container/list", "List", "PushFront"):
 					if u, ok := cl.Call.Args[0].(*ssa.UnOp); ok {
 						if ia, ok := u.X.(*ssa.IndexAddr); ok && isLoadOfField(ia.X, levels) {
-							lv = o.nf(ia.Index)
-						}
-					}
-					r.Check(lv == s.level, fn, "unlinked from the level of the set", p.Pos(instrPos(cl)), "elements of level "+s.level+" are removed from the list of level "+s.level,
-						"an element selected by "+s.what+" (level "+s.level+") is removed from the list of level "+lv+": container/list ignores the call and the table stays linked while its file is deleted")
-				}
-			case g == build:
-				outLevels = append(outLevels, struct {
-					nf   string
-					what string
-					pos  token.Pos
-				}{o.nf(cl.Call.Args[len(cl.Call.Args)-1]), "table.Build", instrPos(cl)})
-			case obj != nil && funcIs(obj, "container/list", "List", "PushBack"), obj != nil && funcIs(obj, "container/list", "List", "PushFront"):
-				if u, ok := cl.Call.Args[0].(*ssa.UnOp); ok {
-					if ia, ok := u.X.(*ssa.IndexAddr); ok && isLoadOfField(ia.X, levels) {
-						outLevels = append(outLevels, struct {
-							nf   string
-							what string
-							pos  token.Pos
-						}{o.nf(ia.Index), "list insert", instrPos(cl)})
-					}
-				}
-			case g != nil && p.InModule(g) && p.recvIs(g, "levelManager") && g != fetch && !isElemSlice(cl.Type()):
-				// writeTable(level, idx, bytes) and maxLevelIdx(level): methods whose first parameter is the level
-				if len(g.Params) >= 2 {
-					if bt, ok := g.Params[1].Type().Underlying().(*types.Basic); ok && bt.Kind() == types.Int {
-						if (g.Signature.Results().Len() == 1 && isErrorType(g.Signature.Results().At(0).Type()) && len(g.Params) == 4) || (g.Signature.Results().Len() == 1 && len(g.Params) == 2 && !isStringType(g.Signature.Results().At(0).Type())) {
 							outLevels = append(outLevels, struct {
 								nf   string
 								what string
 								pos  token.Pos
-							}{o.nf(cl.Call.Args[1]), g.Name(), instrPos(cl)})
+							}{o.nf(ia.Index), "list insert", instrPos(cl)})
+						}
+					}
+				case g != nil && p.InModule(g) && p.recvIs(g, "levelManager") && g != fetch && !isElemSlice(cl.Type()):
+					// writeTable(level, idx, bytes) and maxLevelIdx(level): methods whose first parameter is the level
+					if len(g.Params) >= 2 {
+						if bt, ok := g.Params[1].Type().Underlying().(*types.Basic); ok && bt.Kind() == types.Int {
+							if (g.Signature.Results().Len() == 1 && isErrorType(g.Signature.Results().At(0).Type()) && len(g.Params) == 4) || (g.Signature.Results().Len() == 1 && len(g.Params) == 2 && !isStringType(g.Signature.Results().At(0).Type())) {
+								outLevels = append(outLevels, struct {
+									nf   string
+									what string
+									pos  token.Pos
+								}{o.nf(cl.Call.Args[1]), g.Name(), instrPos(cl)})
+							}
 						}
 					}
 				}
-			}
-		})
+			})
+		}
+		visit(f, &frame{fn: f}, 0)
 		if len(outLevels) < 3 {
 			r.Undecided(fn, "output level", p.Pos(f.Pos()), "fewer than three uses of the output level recognised (Build, write, index, insert)")
 			continue
@@ -391,6 +440,18 @@ func linearOf(v ssa.Value, levels *types.Var) lin {
 		}
 	}
 	return lin{}
+}
+
+// passesSet: some argument of the call is (derived from) one of the table sets.
+func passesSet(cl *ssa.Call, isSet func(ssa.Value) bool) bool {
+	for _, a := range cl.Call.Args {
+		if isElemSlice(a.Type()) || isListElemPtr(a.Type()) {
+			if isSet(a) {
+				return true
+			}
+		}
+	}
+	return false
 }
 
 func isStringType(t types.Type) bool {
